@@ -41,6 +41,11 @@ CHECKS = {
          'Programs are all sets of up to 2 (thorough 3) features out of 33 (cross-module bases by from-import / module attribute / star import, exception and instance-variable inheritance across modules, Final/overload/zope-Interface/__doc__-update reached through module aliases, re-exports by one module with consumers on both sides, alias chains, docformat, three kinds of import cycle) on three skeletons (flat package, sub-package, two roots). Each program is built by the real System under EVERY reachable schedule (6 / 12 / 4), imposed on System.unprocessed_modules, and the canonical dump (type, kind, docstring, bases, resolved bases, MRO, overloads, interface-ness) must be equal across schedules; for programs whose import graph has a cycle only the class hierarchy is compared. Order-dependent programs are minimised to the responsible features. On-disk cross-validation shadows the sorted() call of addPackage.',
          'Trusted: the dump (what is compared); the schedule seam (order of unprocessed_modules, validated against the real directory-listing path); import-cycle detection by ast.',
          'DESIGN.md section 5, C06'),
+ 'C07': ('model_checking',
+         'exhaustive enumeration of a re-export program family x every processing schedule on the real System, plus full driver runs; reference = the statement (one entry at the exported name, every reference leads to it)',
+         'Every combination of object kind (class with method and nested class, function, variable, class with in-module subclass) x re-exporter (package __init__, sibling) x import form (plain, renamed, star) x origin variant (no __all__, __all__ without the object, name also bound by a guarded import) x consumer (from the definer, from the re-exporter, through either module object, star import from either) x docformat is built under every permutation of its sub-modules (thorough: all consumer pairs, 24 schedules; 28 008 executions). Checked per execution: a single registry entry for the object and each member under <re-exporter>.<exported name>, none left under the definer; resolveName of every local name, Class.baseobjects/subclasses, and the href of annotation, class-header and docstring links (by local, old qualified, new qualified and member name) all lead to that object; verdicts equal across schedules. 72 programs also go through the real driver: one page/anchor at the new address, none at the old, registry equal to the in-memory build.',
+         'Trusted: the program generator; the link extraction by href; CPython import semantics are not re-validated here (C04 does that).',
+         'DESIGN.md section 5, C07'),
 }
 
 
